@@ -53,16 +53,31 @@ impl Reporter {
 
     pub fn processing_loop(&mut self, keep_running: &AtomicBool) {
         while keep_running.load(Ordering::Relaxed) {
+            #[cfg(roughenough_verif)]
+            crate::verif::emit("r_pass", vec![]);
+
             self.receive_client_stats();
+
+            #[cfg(roughenough_verif)]
+            crate::verif::emit(
+                "r_received",
+                vec![("clients", crate::verif::V::U(self.client_stats.len() as u64))],
+            );
 
             if Instant::now() >= self.next_update {
                 self.next_update = Instant::now() + self.report_interval;
                 self.report();
                 self.client_stats.clear();
+
+                #[cfg(roughenough_verif)]
+                crate::verif::emit("r_reported", vec![]);
             }
 
             sleep(Duration::from_secs(1));
         }
+
+        #[cfg(roughenough_verif)]
+        crate::verif::emit("r_exit", vec![]);
     }
 
     /// Snapshot of the merged per-address statistics (verification builds only)
